@@ -65,8 +65,8 @@ def run(ctx: Ctx) -> None:
     appc = [c for c in calls(pf) if call_name(c) == "self.app"]
     ok = len(appc) == 1 and [norm(a) for a in appc[0].args] == ["scope", "receive", "send"] and not guard_atoms(appc[0])
     ctx.check("C20.R2", wp, "app(scope, receive, send) always called once", ok, "every scope must reach the wrapped application", pf)
-    sets = {norm(n.targets[0]): (norm(n.value), sorted(guard_atoms(n) - {a for a in guard_atoms(n) if "scope['type']" in a[0]})) for n in walk_local(pf) if isinstance(n, ast.Assign) and isinstance(n.targets[0], ast.Subscript) and norm(n.targets[0].value) == "scope"}
-    want = {"scope['client']": ("(client, 0)", [("client is not None", True)]), "scope['scheme']": ("scheme", [("scheme is not None", True)]), "scope['headers']": ("headers", [("host is not None", True)])}
+    sets = {norm(n.targets[0]): (norm(n.value), guard_atoms(n) - {a for a in guard_atoms(n) if "scope['type']" in a[0]}) for n in walk_local(pf) if isinstance(n, ast.Assign) and isinstance(n.targets[0], ast.Subscript) and norm(n.targets[0].value) == "scope"}
+    want = {"scope['client']": ("(client, 0)", {("client is not None", True)}), "scope['scheme']": ("scheme", {("scheme is not None", True)}), "scope['headers']": ("headers", {("host is not None", True)})}
     ctx.check("C20.R2", wp, "client/scheme/host written only when a trusted value exists", sets == want, f"scope writes: {sets}", pf)
     legacy = {norm(n.targets[0]): norm(n.value) for n in walk_local(pf) if isinstance(n, ast.Assign) and isinstance(n.value, ast.Call) and call_name(n.value) == "_get_trusted_value"}
     wantl = {"client": "_get_trusted_value(b'x-forwarded-for', headers, self.trusted_hops)", "scheme": "_get_trusted_value(b'x-forwarded-proto', headers, self.trusted_hops)", "host": "_get_trusted_value(b'x-forwarded-host', headers, self.trusted_hops)"}
@@ -86,7 +86,7 @@ def run(ctx: Ctx) -> None:
     ok = len(loops) == 1 and norm(loops[0].iter) == "self.mounts.items()" and isinstance(loops[0].target, ast.Tuple) and len(loops[0].target.elts) == 2 and all(isinstance(e, ast.Name) for e in loops[0].target.elts)
     pv, av = (loops[0].target.elts[0].id, loops[0].target.elts[1].id) if ok else ("path", "app")
     ctx.check("C20.R3", wd, "for path, app in self.mounts.items()", ok, "mounts must be tried in insertion order", loops[0] if loops else dm)
-    rets = [n for n in walk_local(dm) if isinstance(n, ast.Return)]
+    rets = [n for n in walk_local(dm) if isinstance(n, ast.Return) and n.value is not None and any(a is loops[0] for a in ancestors(n))] if loops else []
     ok = len(rets) == 1 and norm(rets[0].value) == f"await {av}(scope, receive, send)" and (f"scope['path'].startswith({pv})", True) in guard_atoms(rets[0]) and loops and any(a is loops[0] for a in ancestors(rets[0]))
     ctx.check("C20.R3", wd, "first prefix match returns app(scope, receive, send)", ok, "the first matching mount must handle the request and stop the search", rets[0] if rets else dm)
     rw = [n for n in walk_local(dm) if isinstance(n, ast.Assign) and norm(n.targets[0]) == "scope['path']"]
